@@ -74,6 +74,7 @@ type ProcResult struct {
 	Stderr  []byte
 	Steps   []simos.StepRec
 	Fired   []simos.Fault
+	Sched   []string // goroutine releases, in order (trees with goroutines only)
 }
 
 // sessionLinks are the symbolic links of the session being set up (set by
@@ -104,6 +105,7 @@ type IOCfg struct {
 	StdoutTTY bool
 	Env       [][2]string
 	Clock     simos.ClockPolicy // how simulated time passes for code that reads a clock
+	Sched     uint64            // schedule seed: which goroutine runs when (trees with goroutines only)
 }
 
 // runProc runs one process on fs (which it may modify).
@@ -154,13 +156,57 @@ func runProc(fs *simos.FS, spec ProcSpec, io IOCfg, prevStdout []byte) ProcResul
 		}
 		p.Stdin = st
 	}
-	switch spec.Bin {
-	case "v2":
-		simos.Run(p, "flagv2", jdv2.Main)
-	case "top":
-		simos.Run(p, "flagtop", jdtop.Main)
-	default:
-		panic("unknown binary " + spec.Bin)
+	run := func() {
+		switch spec.Bin {
+		case "v2":
+			simos.Run(p, "flagv2", jdv2.Main)
+		case "top":
+			simos.Run(p, "flagtop", jdtop.Main)
+		default:
+			panic("unknown binary " + spec.Bin)
+		}
+	}
+	var schedTrace []string
+	needSched := false
+	if simos.TreeHasGoroutines && simos.T != nil {
+		// most processes never reach a go statement: try without the
+		// scheduler first, on a copy of the file system, and start over under
+		// the scheduler at the first go statement
+		snapshot := fs.Clone()
+		simos.ArmTrip(true)
+		run()
+		needSched = simos.Tripped()
+		simos.ArmTrip(false)
+		if needSched {
+			fs.RestoreFrom(snapshot)
+			q := *p
+			fresh := simos.Proc{Bin: q.Bin, Argv: q.Argv, Env: q.Env, FS: fs, Sector: q.Sector, FileChunk: q.FileChunk, StdoutTTY: q.StdoutTTY, Faults: append([]simos.Fault(nil), spec.Faults...)}
+			if q.Stdin != nil {
+				st := *q.Stdin
+				st.Reset()
+				fresh.Stdin = &st
+			}
+			*p = fresh
+		}
+	}
+	if needSched {
+		// the tree under test starts goroutines: which of them runs when is
+		// decided by the scheduler, from the schedule seed of the case
+		r := simos.RunScheduled(mix(io.Sched, uint64(len(spec.Argv)), strSeed(strings.Join(spec.Argv, " "))), run)
+		harvestSched()
+		schedTrace = r.Trace
+		switch {
+		case p.Finished():
+		case r.Crash != nil:
+			p.Finish(*r.Crash, "")
+		case r.Deadlock:
+			// what the Go runtime prints when no goroutine can ever run again
+			p.Finish(simos.CrashPanic{Value: "fatal error: all goroutines are asleep - deadlock!", Stack: "deadlock (main goroutine blocked; last releases: " + strings.Join(lastN(r.Trace, 6), " ") + ")"}, "")
+		default:
+			p.Finish(nil, "")
+		}
+	} else if !(simos.TreeHasGoroutines && simos.T != nil) {
+		run()
 	}
 	stats.Procs++
 	stats.Steps += int64(len(p.Steps))
@@ -170,8 +216,33 @@ func runProc(fs *simos.FS, spec ProcSpec, io IOCfg, prevStdout []byte) ProcResul
 	return ProcResult{
 		Code: p.Code, Killed: p.Killed, Runaway: p.Runaway, Crash: p.Crash, CrashAt: p.CrashAt, Stack: p.Stack,
 		Stdout: append([]byte(nil), p.Stdout.Bytes()...), Stderr: append([]byte(nil), p.Stderr.Bytes()...),
-		Steps: p.Steps, Fired: p.Fired,
+		Steps: p.Steps, Fired: p.Fired, Sched: schedTrace,
 	}
+}
+
+func lastN(s []string, n int) []string {
+	if len(s) > n {
+		return s[len(s)-n:]
+	}
+	return s
+}
+
+// harvestSched books what the goroutine scheduler did.
+func harvestSched() {
+	st := &simos.SchedStats
+	if st.Runs > 0 {
+		stats.probeN("process-or-call-run-under-the-goroutine-scheduler", st.Runs)
+	}
+	if st.Spawned > 0 {
+		stats.probeN("goroutine-started-by-code-under-test", st.Spawned)
+	}
+	if st.Decisions > 0 {
+		stats.probeN("scheduling-decision-with-more-than-one-runnable-goroutine", st.Decisions)
+	}
+	if st.Deadlocks > 0 {
+		stats.probeN("deadlock-detected-by-the-scheduler", st.Deadlocks)
+	}
+	st.Runs, st.Spawned, st.Decisions, st.Deadlocks = 0, 0, 0, 0
 }
 
 // fsDigest renders a file system canonically (names sorted).
@@ -249,6 +320,9 @@ func eventLog(i int, r ProcResult) []string {
 			l += " [fault " + s.Fault + "]"
 		}
 		out = append(out, l)
+	}
+	if len(r.Sched) > 0 {
+		out = append(out, fmt.Sprintf("p%d schedule: %s", i, strings.Join(lastN(r.Sched, 60), " ")))
 	}
 	end := fmt.Sprintf("p%d end code=%d", i, r.Code)
 	if r.Killed {
